@@ -265,4 +265,110 @@ OK("c04-benign-window-unchained", "C04", "response.py",
    "        return lower < issued_at < upper",
    "        return lower < issued_at and issued_at < upper")
 
+# ------------------------------------------------------------------ C05
+V("c05-unsolicited-else-removed", "C05", "response.py",
+  "            else:\n                logger.exception(\n                    \"Unsolicited response %s\" % self.in_response_to)\n                raise UnsolicitedResponse(\n                    \"Unsolicited response: %s\" % self.in_response_to)\n\n        return self",
+  "            else:\n                logger.exception(\n                    \"Unsolicited response %s\" % self.in_response_to)\n\n        return self",
+  rule="R1")
+V("c05-allow-unsolicited-inverted", "C05", "response.py",
+  "            elif self.allow_unsolicited:\n                # Should check that I haven't seen this before",
+  "            elif not self.allow_unsolicited:\n                # Should check that I haven't seen this before",
+  rule="R1")
+V("c05-scd-neq", "C05", "response.py",
+  "assert _sc.subject_confirmation_data.in_response_to == irp",
+  "assert _sc.subject_confirmation_data.in_response_to != irp", rule="R2")
+V("c05-scd-exists-shape", "C05", "response.py",
+  "                try:\n                    assert _sc.subject_confirmation_data.in_response_to == irp\n                except AssertionError:\n                    return False\n\n        return True",
+  "                if _sc.subject_confirmation_data.in_response_to == irp:\n                    return True\n\n        return False",
+  rule="R2")
+V("c05-scd-result-ignored", "C05", "response.py",
+  "                    if not self.check_subject_confirmation_in_response_to(\n                            self.in_response_to):\n                        logger.exception(\n                            \"Unsolicited response %s\" % self.in_response_to)\n                        raise UnsolicitedResponse(\n                            \"Unsolicited response: %s\" % self.in_response_to)",
+  "                    if not self.check_subject_confirmation_in_response_to(\n                            self.in_response_to):\n                        logger.exception(\n                            \"Unsolicited response %s\" % self.in_response_to)",
+  rule="R2")
+V("c05-destination-under-unsolicited", "C05", "response.py",
+  "        if self.asynchop:\n            if not self._validate_destination():\n                return None",
+  "        if self.asynchop and not getattr(self, 'allow_unsolicited', False):\n            if not self._validate_destination():\n                return None",
+  rule="R3")
+V("c05-destination-in-flipped", "C05", "response.py",
+  "elif self.response.destination not in self.return_addrs:",
+  "elif self.response.destination in self.return_addrs:", rule="R3")
+V("c05-destination-ignored", "C05", "response.py",
+  "            if not self._validate_destination():\n                return None",
+  "            if not self._validate_destination():\n                logger.error('bad destination')",
+  rule="R3")
+V("c05-regex-match-inverted", "C05", "response.py",
+  "                if not does_match:\n", "                if does_match:\n", rule="R3")
+V("c05-audience-under-unsolicited", "C05", "response.py",
+  "        if not for_me(conditions, self.entity_id):\n            if not lax:\n                raise Exception(\"Not for me!!!\")",
+  "        if not self.allow_unsolicited:\n            if not for_me(conditions, self.entity_id):\n                if not lax:\n                    raise Exception(\"Not for me!!!\")",
+  rule="R4")
+V("c05-audience-not-raised", "C05", "response.py",
+  "            if not lax:\n                raise Exception(\"Not for me!!!\")",
+  "            logger.error(\"Not for me!!!\")", rule="R4")
+V("c05-for-me-any", "C05", "response.py",
+  "            if audience.text.strip() == myself:\n                break\n        else:\n            # print(\"Not for me: %s\" % myself)\n            return False\n\n    return True",
+  "            if audience.text.strip() == myself:\n                return True\n\n    return False",
+  rule="R5")
+V("c05-for-me-startswith", "C05", "response.py",
+  "if audience.text.strip() == myself:", "if audience.text.strip().startswith(myself):",
+  rule="R5")
+V("c05-recipient-not-verified", "C05", "response.py",
+  "if not _recip or not self.verify_recipient(_recip):", "if not _recip:", rule="R6")
+V("c05-recipient-any-true", "C05", "response.py",
+  "            if recipient in self.return_addrs:\n                return True\n        except KeyError:\n            pass\n\n        return False",
+  "            if recipient in self.return_addrs:\n                return True\n        except KeyError:\n            pass\n\n        return True",
+  rule="R6")
+V("c05-return-addrs-all-bindings", "C05", "entity.py",
+  "                kwargs[\"return_addrs\"] = self.config.endpoint(\n                        service,\n                        binding=binding,",
+  "                kwargs[\"return_addrs\"] = self.config.endpoint(\n                        service,\n                        binding=None,",
+  rule="R7")
+V("c05-came-from-gate-removed", "C05", "response.py",
+  "                elif self.came_from is None:\n                    raise VerificationError(\"Came from\")",
+  "                elif self.came_from is None:\n                    logger.info(\"Came from\")",
+  rule="R8")
+OK("c05-benign-for-me-all-any", "C05", "response.py",
+   "    for restriction in conditions.audience_restriction:\n        if not restriction.audience:\n            return False\n        for audience in restriction.audience:\n            if audience.text.strip() == myself:\n                break\n        else:\n            # print(\"Not for me: %s\" % myself)\n            return False\n\n    return True",
+   "    return all(any(audience.text.strip() == myself\n                   for audience in restriction.audience or [])\n               for restriction in conditions.audience_restriction)")
+
+# ------------------------------------------------------------------ C06
+V("c06-table-entry-removed", "C06", "response.py",
+  "    STATUS_NO_PASSIVE: StatusNoPassive,\n", "", rule="R1")
+V("c06-table-wrong-class", "C06", "response.py",
+  "    STATUS_NO_PASSIVE: StatusNoPassive,", "    STATUS_NO_PASSIVE: StatusAuthnFailed,",
+  rule="R1")
+V("c06-neq-to-eq", "C06", "response.py",
+  "if status.status_code.value != samlp.STATUS_SUCCESS:",
+  "if status.status_code.value == samlp.STATUS_SUCCESS:", rule="R2")
+V("c06-compare-other-constant", "C06", "response.py",
+  "if status.status_code.value != samlp.STATUS_SUCCESS:",
+  "if status.status_code.value == samlp.STATUS_RESPONDER:", rule="R2")
+V("c06-no-raise", "C06", "response.py",
+  "                raise excep(\n                    \"%s from %s\" % (msg, status.status_code.value,))",
+  "                logger.error(\n                    \"%s from %s\" % (msg, status.status_code.value,))",
+  rule="R2")
+V("c06-missing-status-ok", "C06", "response.py",
+  "        else:\n            raise StatusError(\"Missing status in response\")\n", "", rule="R2")
+V("c06-status-ok-not-asserted", "C06", "response.py",
+  "        assert self.status_ok()\n        return self", "        return self", rule="R3")
+V("c06-status-only-async", "C06", "response.py",
+  "        assert self.issue_instant_ok()\n        assert self.status_ok()\n        return self",
+  "        assert self.issue_instant_ok()\n        if self.asynchop:\n            assert self.status_ok()\n        return self",
+  rule="R3")
+V("c06-version-check-dropped", "C06", "response.py",
+  "            assert self.response.version == \"2.0\"", "            assert self.response.version",
+  rule="R4")
+V("c06-request-version-dropped", "C06", "request.py",
+  "        assert self.message.version == \"2.0\"\n", "", rule="R4")
+V("c06-verify-catches-statuserror", "C06", "response.py",
+  "        try:\n            res = self._verify()\n        except AssertionError as err:\n            logger.error(\"Verification error on the response: %s\", err)\n            raise",
+  "        try:\n            res = self._verify()\n        except StatusError as err:\n            res = self\n        except AssertionError as err:\n            logger.error(\"Verification error on the response: %s\", err)\n            raise",
+  rule="R5")
+V("c06-client-swallows-statuserror", "C06", "client_base.py",
+  "        except StatusError as err:\n            logger.error(\"SAML status error: %s\", err)\n            raise",
+  "        except StatusError as err:\n            logger.error(\"SAML status error: %s\", err)\n            resp = None",
+  rule="R5")
+OK("c06-benign-eq-else", "C06", "response.py",
+   "        assert self.issue_instant_ok()\n        assert self.status_ok()\n        return self",
+   "        assert self.status_ok()\n        assert self.issue_instant_ok()\n        return self")
+
 VARIANTS[:] = [v for v in VARIANTS if v]
